@@ -8,7 +8,7 @@
    itself, for bodies of any shape, whenever every clause of the body evaluates (no error, no panic site, enough fuel). *)
 From Coq Require Import Permutation.
 From GV.Model Require Import SEval PEval.
-From GV.Proofs Require Import StatusProps EvalLaws OrderProps FrameProps PureProps MemoProps.
+From GV.Proofs Require Import StatusProps EvalLaws OrderProps FrameProps PureProps MemoProps RuleOrderProps.
 
 Theorem C04_perm_lines : forall T (f : T -> M status) g cnf cnf' s,
   Permutation cnf cnf' -> transparent f g (List.concat cnf) ->
@@ -161,3 +161,33 @@ Theorem C04_initial_state_is_valid : forall re conv prog doc,
   nc_prog prog = true -> Valid prog (evalP re conv prog) (init_state prog doc).
 Proof. exact init_state_valid. Qed.
 Print Assumptions C04_initial_state_is_valid.
+
+(* ---- the order of the rules of a file ----
+   capture-free program, distinct rule names, the rules written in any other order (forward references, rules that were
+   already evaluated and cached when they are referenced, ... ): the file status is the same, and every rule has the
+   same status - both runs compute, for each rule, the value rule_den gives it (the memo-free evaluation of that rule
+   from the initial state), which is a function of the rule alone. Any two fuels. *)
+Theorem C04_rule_order_file_status : forall re conv lets prs rules rules',
+  nc_prog (mkRulesFile lets rules prs) = true -> NoDup (map rule_name rules) -> Permutation rules rules' ->
+  forall n n' doc st st' recs recs' s1 s2,
+  eval_file re conv (mkRulesFile lets rules prs) n doc = Done (st, recs, s1) ->
+  eval_file re conv (mkRulesFile lets rules' prs) n' doc = Done (st', recs', s2) -> st = st'.
+Proof. exact rule_order_file_status. Qed.
+Print Assumptions C04_rule_order_file_status.
+
+Theorem C04_rule_order_rule_statuses : forall re conv lets prs rules rules',
+  nc_prog (mkRulesFile lets rules prs) = true -> NoDup (map rule_name rules) -> Permutation rules rules' ->
+  forall n n' doc st st' recs recs' s1 s2,
+  eval_file re conv (mkRulesFile lets rules prs) n doc = Done (st, recs, s1) ->
+  eval_file re conv (mkRulesFile lets rules' prs) n' doc = Done (st', recs', s2) ->
+  exists sts sts',
+    Forall2 (rule_den re conv lets prs rules doc) rules sts /\
+    Forall2 (rule_den re conv lets prs rules doc) rules' sts' /\
+    st = fold_fail_pass_skip sts /\ st' = fold_fail_pass_skip sts'.
+Proof. exact rule_order_rule_status. Qed.
+Print Assumptions C04_rule_order_rule_statuses.
+
+Theorem C04_rule_den_is_a_function : forall re conv lets prs rules doc x a b,
+  rule_den re conv lets prs rules doc x a -> rule_den re conv lets prs rules doc x b -> a = b.
+Proof. exact rule_den_fun. Qed.
+Print Assumptions C04_rule_den_is_a_function.
